@@ -62,3 +62,21 @@ Example stop_is_reported_with_untraced :
   | XNever => False
   end.
 Proof. vm_compute. split; reflexivity. Qed.
+
+(* an interrupted status query is an error, never a status: the handle is left exactly as it was (still Running, the
+   pid still known), so a later query reports the real cause *)
+Theorem interrupted_wait_is_error p :
+  pstep (mk p QWait) (RErrno EINTR) = (mk p QIdle, PRet (VErr EINTR)).
+Proof. reflexivity. Qed.
+
+Theorem interrupted_wait_timeout_is_error p dl delay :
+  pstep (mk p (QWtWait dl delay false)) (RErrno EINTR) = (mk p QIdle, PRet (VErr EINTR))
+  /\ pstep (mk p (QWtWait dl delay true)) (RErrno EINTR) = (mk p QIdle, PRet (VStatus None)).
+Proof. split; reflexivity. Qed.
+
+Theorem only_echild_means_reaped p e : e <> ECHILD -> absorb p (RErrno e) = inr e.
+Proof. intros H. unfold absorb. apply N.eqb_neq in H. rewrite H. reflexivity. Qed.
+
+Theorem interrupt_changes_nothing w dur w' r :
+  xinterrupt w dur = XRes w' r -> r = RErrno EINTR /\ pr (xbase w') = pr (padvance (xbase w) (pnow (xbase w) + dur)) /\ xstopped w' = xstopped w.
+Proof. unfold xinterrupt. intros H. injection H as <- <-. repeat split. Qed.
